@@ -18,11 +18,27 @@ import (
 // faults, restarts from the store under every query order, and changes announced by
 // another node (property C12).
 type PersistSystem struct {
-	Geo    Geometry
-	Mode   allocator.PoolMode
-	Grace  int
-	NSubs  int
-	events []core.Event
+	Geo   Geometry
+	Mode  allocator.PoolMode
+	Grace int
+	NSubs int
+	// LineIDs: subscribers are named like access lines ("olt-1/0/<n>": the identifier itself contains the key separator)
+	LineIDs bool
+	events  []core.Event
+}
+
+// WithLineIDs returns a copy of s whose subscriber identifiers contain '/'.
+func (s *PersistSystem) WithLineIDs() *PersistSystem {
+	c := *s
+	c.LineIDs = true
+	return &c
+}
+
+func (s *PersistSystem) subID(i int) string {
+	if s.LineIDs {
+		return fmt.Sprintf("olt-1/0/%d", i)
+	}
+	return defaultSubID(i)
 }
 
 func NewPersistSystem(g Geometry, mode allocator.PoolMode, grace, nsubs int) *PersistSystem {
@@ -61,6 +77,9 @@ func (s *PersistSystem) usable() []int {
 }
 
 func (s *PersistSystem) Name() string {
+	if s.LineIDs {
+		return fmt.Sprintf("persist.DistributedAllocator-%s/%s/g%d/lineids", s.Mode, s.Geo.Name, s.Grace)
+	}
 	return fmt.Sprintf("persist.DistributedAllocator-%s/%s/g%d", s.Mode, s.Geo.Name, s.Grace)
 }
 func (s *PersistSystem) Config() map[string]any {
@@ -100,13 +119,13 @@ func (p *persistInst) start() {
 	p.da = da
 }
 
-func (p *persistInst) key(sub int) string { return "/allocation/p/" + defaultSubID(sub) }
+func (p *persistInst) key(sub int) string { return "/allocation/p/" + p.s.subID(sub) }
 
 func (p *persistInst) Apply(ev core.Event) map[string]any {
 	op := ev["op"].(string)
 	sub := toInt(ev["sub"])
 	arg := toInt(ev["arg"])
-	id := defaultSubID(sub)
+	id := p.s.subID(sub)
 	g := p.s.Geo
 	switch op {
 	case "alloc", "allocf":
@@ -178,7 +197,7 @@ func (p *persistInst) Observe() map[string]any {
 	stv := make([]int, p.s.NSubs)
 	for i := 1; i <= p.s.NSubs; i++ {
 		lk[i-1] = -1
-		if pf, ok := p.da.Get(defaultSubID(i)); ok && pf != nil {
+		if pf, ok := p.da.Get(p.s.subID(i)); ok && pf != nil {
 			lk[i-1] = p.s.Geo.UnitOfNet(pf)
 		}
 		stv[i-1] = -1
@@ -206,7 +225,7 @@ func (p *persistInst) Probe() map[string]any {
 	n := 0
 	seen := map[int]bool{}
 	for i := 0; i < p.s.Geo.NUnits()+2; i++ {
-		pf, err := p.da.Allocate(bg, defaultSubID(1000+i))
+		pf, err := p.da.Allocate(bg, p.s.subID(1000+i))
 		if err != nil {
 			break
 		}
